@@ -33,7 +33,7 @@ MUTANTS = [
  ('c08_update_A_swapped', 'C08', D + 'data_updating.rs', 'data.update_matrix(&mut self.data.A, e, d, None)?;', 'data.update_matrix(&mut self.data.A, d, e, None)?;'),
  ('c08_no_clear_normb', 'C08', D + 'data_updating.rs', '        self.data.clear_normb();\n', ''),
  ('c08_zip_rscale_row', 'C08', D + 'data_updating.rs', 'M.nzval[idx] = lscale[row] * rscale[col] * value;', 'M.nzval[idx] = lscale[row] * rscale[row] * value;'),
- ('c08_copy_before_check', 'C08', D + 'data_updating.rs', '        if data.len() != v.len() {\n            return Err(SparseFormatError::IncompatibleDimension);\n        }\n\n        v.copy_from_slice(data);', '        v[..data.len().min(v.len())].copy_from_slice(&data[..data.len().min(v.len())]);\n        if data.len() != v.len() {\n            return Err(SparseFormatError::IncompatibleDimension);\n        }'),
+ ('c08_copy_before_check', 'C08', D + 'data_updating.rs', '        if data.len() != v.len() {\n            return Err(SparseFormatError::IncompatibleDimension);\n        }\n\n        v.copy_from_slice(data);', '        let k = data.len().min(v.len());\n        v[..k].copy_from_slice(&data[..k]);\n        if data.len() != v.len() {\n            return Err(SparseFormatError::IncompatibleDimension);\n        }\n        v.copy_from_slice(data);'),
  ('c09_drop_soc', 'C09', D + 'presolver.rs', '        if matches!(cone, SupportedConeT::NonnegativeConeT(_)) {\n            for _ in 0..numel_cone {', '        if matches!(cone, SupportedConeT::NonnegativeConeT(_) | SupportedConeT::SecondOrderConeT(_)) {\n            for _ in 0..numel_cone {'),
  ('c09_z_not_zero', 'C09', D + 'presolver.rs', '                solution.z[idx] = T::zero();', '                solution.z[idx] = variables.z[ctr];'),
  ('c09_reverse_reads_global', 'C09', D + 'presolver.rs', 'solution.s[idx] = self.infbound.as_T();', 'solution.s[idx] = crate::get_infinity().as_T();'),
